@@ -76,6 +76,12 @@ class HistoryProp(Prop):
             return
         if g.dirty():
             yield from g.commit_all()
+        if ex.gen_state.get("aborted") and rng.random() < 0.6 and not (
+                ex.gen_state.get("aborted_kind") == "rebase" and g.gated("hooks_rebase_abort_masks_hooks")):
+            # life goes on after an aborted operation: the next piece of AI work must be recorded as usual
+            ex.probe("work_after_abort")
+            yield from g.some_edits(n_ai=(1, 2), n_human=(0, 1))
+            yield from g.commit_all()
 
     def abstract(self, ex, trace):
         import hashlib
